@@ -68,7 +68,10 @@ fn c_api_feed(scheme: &Scheme, text: &str) -> (bool, String) {
     // the C API on the same document (only called after the Rust entry points did not panic)
     let ws = wirefilter_ffi::Scheme::from(scheme.clone());
     let mut cx = wirefilter_ffi::wirefilter_create_execution_context(&ws);
-    let ok = wirefilter_ffi::wirefilter_deserialize_json_to_execution_context(&mut cx, text.as_ptr(), text.len());
+    // the caller's buffer is only lent for the duration of the call: scrub it afterwards
+    let mut buf: Vec<u8> = text.as_bytes().to_vec();
+    let ok = wirefilter_ffi::wirefilter_deserialize_json_to_execution_context(&mut cx, buf.as_ptr(), buf.len());
+    buf.iter_mut().for_each(|b| *b = b'#');
     let ser = wirefilter_ffi::wirefilter_serialize_execution_context_to_json(&mut cx);
     let out = if ser.status == wirefilter_ffi::Status::Success {
         let s = unsafe { std::slice::from_raw_parts(ser.json.ptr as *const u8, ser.json.len) };
@@ -78,6 +81,7 @@ fn c_api_feed(scheme: &Scheme, text: &str) -> (bool, String) {
     };
     wirefilter_ffi::wirefilter_free_string(ser.json);
     wirefilter_ffi::wirefilter_free_execution_context(cx);
+    drop(buf);
     (ok, out)
 }
 
@@ -369,9 +373,26 @@ fn mutated_case(ch: &mut Choices<'_>, st: &mut Stats) -> CaseResult {
             text[..k].to_string()
         }
         3 => {
-            // unknown field
+            // unknown field (also `$`-prefixed names that are not the list section,
+            // carrying a payload shaped like a list section or the section itself)
             if let Value::Object(o) = &mut doc {
-                o.insert(ch.pick(&["nope", "", "$list", "$lists2", "x.y.z.unknown"]).to_string(), json!(1));
+                let name = ch.pick(&["nope", "", "$list", "$lists2", "x.y.z.unknown", "$", "$LISTS", "$lists.", " $lists"]).to_string();
+                let payload = match ch.draw(4) {
+                    0 => json!(1),
+                    1 => json!([]),
+                    2 => o.get("$lists").cloned().unwrap_or(json!([])),
+                    _ => json!("x"),
+                };
+                if ch.chance(1, 3) {
+                    // rename the list section itself
+                    if let Some(v) = o.remove("$lists") {
+                        o.insert(name, v);
+                    } else {
+                        o.insert(name, payload);
+                    }
+                } else {
+                    o.insert(name, payload);
+                }
             }
             definitely_invalid = true;
             serde_json::to_string(&doc).unwrap()
